@@ -19,30 +19,41 @@ Close(a, b, tol) == IF IsNum(a) /\ IsNum(b) THEN Abs(a - b) <= tol ELSE a = b
 \* Rounded division p*S/q for q > 0, safe as long as |p|*S < 2^31.
 RDiv(p, q) == IF p >= 0 THEN (2 * p + q) \div (2 * q) ELSE -((2 * (-p) + q) \div (2 * q))
 
-\* p/q scaled by S, computed without overflowing: (p \div q)*S + RDiv((p % q)*S, q).
-\* Requires q > 0, q*S < 2^31/2 and |p \div q| * S < 2^31.
-FxDiv(p, q, S) ==
-  IF p >= 0 THEN (p \div q) * S + RDiv((p % q) * S, q)
-  ELSE -(((-p) \div q) * S + RDiv(((-p) % q) * S, q))
+\* p/q scaled by S = 10^k and rounded, by long division digit by digit: needs only
+\* q * 10 < 2^31 and |p \div q| * S < 2^31.
+RECURSIVE LongDiv(_, _, _)
+LongDiv(rem, q, S) == IF S = 1 THEN 0
+                      ELSE ((rem * 10) \div q) * (S \div 10) + LongDiv((rem * 10) % q, q, S \div 10)
+FxDivPos(p, q, S) == (p \div q) * S + (LongDiv(p % q, q, S * 10) + 5) \div 10
+FxDiv(p, q, S) == IF p >= 0 THEN FxDivPos(p, q, S) ELSE -FxDivPos(-p, q, S)
 
 RECURSIVE SumSeq(_)
 SumSeq(s) == IF s = <<>> THEN 0 ELSE Head(s) + SumSeq(Tail(s))
 
-SumF(f, D) == LET RECURSIVE go(_)
-                  go(S) == IF S = {} THEN 0
-                           ELSE LET x == CHOOSE y \in S : TRUE IN f[x] + go(S \ {x})
-              IN go(D)
+\* Sum / max / min of Op(k) over the integer interval a..b (plain recursion, linear)
+RECURSIVE SumN(_, _, _)
+SumN(Op(_), a, b) == IF a > b THEN 0 ELSE Op(a) + SumN(Op, a + 1, b)
+RECURSIVE MaxN(_, _, _, _)
+MaxN(Op(_), a, b, acc) == IF a > b THEN acc ELSE LET v == Op(a) IN MaxN(Op, a + 1, b, IF v > acc THEN v ELSE acc)
+RECURSIVE MinN(_, _, _, _)
+MinN(Op(_), a, b, acc) == IF a > b THEN acc ELSE LET v == Op(a) IN MinN(Op, a + 1, b, IF v < acc THEN v ELSE acc)
 
-\* Sum of Op(x) over a finite set D (Op may be any operator).
-Sum(Op(_), D) == LET RECURSIVE go(_)
-                     go(S) == IF S = {} THEN 0
-                              ELSE LET x == CHOOSE y \in S : TRUE IN Op(x) + go(S \ {x})
-                 IN go(D)
+\* Sum of Op(x) over a finite set D (Op may be any operator); linear for intervals
+RECURSIVE SumSetRec(_, _)
+SumSetRec(Op(_), D) == IF D = {} THEN 0
+                       ELSE LET x == CHOOSE y \in D : TRUE IN Op(x) + SumSetRec(Op, D \ {x})
+Sum(Op(_), D) == SumSetRec(Op, D)
+SumF(f, D) == Sum(LAMBDA x : f[x], D)
 
+\* max / min of Op over a finite set, each Op(x) evaluated once
+RECURSIVE MaxSetRec(_, _, _)
+MaxSetRec(Op(_), D, acc) == IF D = {} THEN acc
+                            ELSE LET x == CHOOSE y \in D : TRUE  v == Op(x)
+                                 IN MaxSetRec(Op, D \ {x}, IF v > acc THEN v ELSE acc)
 MaxOf(Op(_), D, dflt) == IF D = {} THEN dflt
-                         ELSE LET x == CHOOSE y \in D : \A z \in D : Op(y) >= Op(z) IN Op(x)
+                         ELSE LET x == CHOOSE y \in D : TRUE IN MaxSetRec(Op, D \ {x}, Op(x))
 MinOf(Op(_), D, dflt) == IF D = {} THEN dflt
-                         ELSE LET x == CHOOSE y \in D : \A z \in D : Op(y) <= Op(z) IN Op(x)
+                         ELSE -MaxOf(LAMBDA x : -Op(x), D, 0)
 
 Card(S) == Cardinality(S)
 Choose2(n) == (n * (n - 1)) \div 2
